@@ -75,6 +75,33 @@ def line_mutations(text, rng, n):
         yield ("line_mutation", ops, "\n".join(ls))
 
 
+EXOTIC_SEPARATORS = ["\x0c", "\x0b", "\x1c", "\x1d", "\x1e", "\x85", "\u2028", "\u2029", "\r", "\x0c\n", "\n\x0c", "\r\r"]
+
+
+def separator_mutations(text, rng, n):
+    """well-formed programs sprinkled with characters that some line-splitting routines treat as line breaks although the
+    lexer and codelimit's line/column arithmetic do not (form feed page breaks, VT, FS/GS/RS, NEL, LS/PS, lone CR)"""
+    lines = text.split("\n")
+    for _ in range(n):
+        ls = list(lines)
+        ops = []
+        for _ in range(rng.choice([1, 1, 2, 4])):
+            i = rng.randrange(len(ls))
+            sep = rng.choice(EXOTIC_SEPARATORS)
+            where = rng.choice(["own_line", "line_start", "line_end", "after_indent"])
+            ops.append((where, i, sep))
+            if where == "own_line":
+                ls.insert(i, sep)
+            elif where == "line_start":
+                ls[i] = sep + ls[i]
+            elif where == "line_end":
+                ls[i] = ls[i] + sep
+            else:
+                k = len(ls[i]) - len(ls[i].lstrip(" "))
+                ls[i] = ls[i][:k] + sep + ls[i][k:]
+        yield ("separator_mutation", ops, "\n".join(ls))
+
+
 def token_mutations(text, raw_tokens, rng, n):
     """delete / duplicate / swap lexer tokens (raw_tokens: [(offset, type, value)])"""
     toks = [v for _, _, v in raw_tokens]
@@ -160,9 +187,27 @@ def targeted(language):
     return out
 
 
+def declared_encoding_cases(language):
+    """files that DECLARE an encoding (PEP 263 / Emacs / Vim style) and then contain bytes that are not valid in it, not valid
+    UTF-8 either, or name a codec that does not exist: whatever a reader does with the declaration, it must not fail"""
+    lead = "#" if language == "Python" else "//"
+    body = b"def f(a):\n    return a\n" if language == "Python" else b"int f(int a) {\n  return a;\n}\n"
+    sjis = "\u30c6\u30b9\u30c8".encode("shift_jis")
+    out = []
+    decls = [("shift_jis", sjis[:-1] + b"\x82"), ("euc_jp", "\u30c6".encode("euc_jp")[:1] + b"\n"), ("cp1252", b"\x81\x8d\x8f\x90\x9d"),
+             ("ascii", b"caf\xe9"), ("utf-16", b"\xff\xfe\x00"), ("utf-32", b"\x00\x01"), ("utf-8", b"\xff\xfe junk"), ("no-such-codec", b"\xe9"),
+             ("gb2312", b"\xa1"), ("big5", b"\xf9\xfe\xff"), ("utf_7", b"+\xff-"), ("hex", b"zz\xe9"), ("rot13", b"\xe9"), ("idna", b"\xe9.."),
+             ("latin-1", b"\xe9\xff"), ("iso-2022-jp", b"\x1b$B\xff")]
+    for i, (codec, junk) in enumerate(decls):
+        for style in (f"{lead} -*- coding: {codec} -*-", f"{lead} vim: set fileencoding={codec} :", f"{lead} coding={codec}"):
+            first = (b"#!/usr/bin/env x\n" if i % 2 else b"")
+            out.append((f"declared_{codec}_{len(out)}", first + style.encode() + b"\n" + lead.encode() + b" " + junk + b"\n" + body))
+    return out
+
+
 def raw_byte_cases(language, base: bytes):
     """byte-level contents for file-based entry points"""
-    return [
+    return declared_encoding_cases(language)[:: 5] + [
         ("empty", b""), ("nul", b"\x00" * 10), ("latin1", "// caf\xe9\n".encode("latin-1") + base[:2000] + "\nint \xe9 = 1;\n".encode("latin-1")),
         ("invalid_utf8", b"\xff\xfe\xfd" + base[:500]), ("utf16_bom", "\ufefff() {}\n".encode("utf-16")),
         ("utf8_bom", b"\xef\xbb\xbf" + base[:1500]), ("lone_continuation", base[:300] + b"\x80\x80" + base[300:900]),
